@@ -40,17 +40,30 @@ def run(prop, tier, seed, replay):
             jobs.append(("replay", ["--worlds", wp]))
     else:
         if uses["programs"]:
-            cfgs = ["fc_q"] if tier == "quick" else ["fc_q", "fc_t"]
+            cfgs = ["fc_q", "fc_q3"] if tier == "quick" else ["fc_q", "fc_q3", "fc_t"]
             cases = os.path.join(work, "programs.ndjson")
             open(cases, "w").close()
             for c in cfgs:
                 r = P.tlc_mc(os.path.join(MC, "MC_FastCheck.tla"), os.path.join(MC, c + ".cfg"), work, workers=min(8, P.NCPU), timeout=10800)
                 if r["errors"]:
                     raise P.ToolError(f"TLC errors in {c}: {r['errors'][:3]}")
-                n = P.extract("REPLAY", r["out"], cases, "a")
+                one = os.path.join(work, c + ".ndjson")
+                n = P.extract("REPLAY", r["out"], one)
                 os.remove(r["out"])
+                # quick tier: every program is model-checked, a seeded sample of them is replayed into the real crate
+                import random
+                rnd = random.Random(seed + len(instances))
+                cap = 30000 if tier == "quick" else 10 ** 9
+                kept = 0
+                with open(one) as fi, open(cases, "a") as fo:
+                    for ln in fi:
+                        if n <= cap or rnd.random() < cap / n:
+                            fo.write(ln)
+                            kept += 1
+                os.remove(one)
                 r["cases"] = n
-                instances.append({k: r[k] for k in ("name", "generated", "distinct", "wall", "cases", "violated")})
+                r["replayed"] = kept
+                instances.append({k: r[k] for k in ("name", "generated", "distinct", "wall", "cases", "replayed", "violated")})
                 for inv in r["violated"]:
                     out.notes.append(f"design-level: {inv} violated in {c}")
             jobs.append(("programs", ["--cases", cases]))
